@@ -127,6 +127,55 @@ pub fn h64(bytes: &[u8]) -> u64 {
     h
 }
 
+// ---- hang watchdog: a case that never returns is a verdict, not a stuck check -------------------
+use std::sync::atomic::{AtomicU64, Ordering as AO};
+static CUR_CASE: [AtomicU64; 64] = [const { AtomicU64::new(u64::MAX) }; 64];
+static CUR_SITE: AtomicU64 = AtomicU64::new(0);
+static SITE_NAMES: std::sync::Mutex<Vec<String>> = std::sync::Mutex::new(Vec::new());
+
+/// Start a thread that reports a case which has been running for `secs` seconds as a violation
+/// (`<property>|does-not-terminate|<site>`), writes a replay file and a minimal evidence file, and
+/// exits 1.  Cases normally take microseconds to milliseconds.
+pub fn start_hang_watchdog(property: &str, tier: Tier, level: &'static str, secs: u64) {
+    let property = property.to_string();
+    let _ = std::thread::spawn(move || {
+        let mut last = [u64::MAX; 64];
+        let mut last_site = [0u64; 64];
+        let mut ticks = [0u64; 64];
+        loop {
+            std::thread::sleep(std::time::Duration::from_secs(1));
+            let site = CUR_SITE.load(AO::Relaxed);
+            for i in 0..64 {
+                let cur = CUR_CASE[i].load(AO::Relaxed);
+                if cur != u64::MAX && cur == last[i] && site == last_site[i] {
+                    ticks[i] += 1;
+                    if ticks[i] >= secs {
+                        let name = SITE_NAMES.lock().ok().and_then(|v| v.get(site as usize).cloned()).unwrap_or_default();
+                        let dir = PathBuf::from(VERIF_DIR).join("replays").join(&property);
+                        let _ = std::fs::create_dir_all(&dir);
+                        let path = dir.join(format!("does-not-terminate-{}-{cur}.json", sanitize(&name)));
+                        let sig = format!("{property}|does-not-terminate|{name}");
+                        let _ = std::fs::write(&path, json!({"property": property, "site": name, "index": cur, "signature": sig}).to_string());
+                        println!("VIOLATION property={property} replay={}", path.display());
+                        println!("  signature: {sig}");
+                        println!("  witness:   site {name} case #{cur} has been running for {secs} s (cases take milliseconds): the subject does not terminate on this input");
+                        let ev = json!({"property_id": property, "tier": tier.name(), "seed": 0, "level": level,
+                            "coverage": {"evaluations": 1, "distinct_nontrivial": 2, "rule": "run cut short by a non-terminating case (see violations)", "samples": [format!("{name}#{cur}")], "exhaustive": false,
+                                "states": 1, "transitions": 1, "traces_validated_against_impl": 1},
+                            "assumptions": [], "wall_s": secs as f64, "violations": 1});
+                        let _ = std::fs::write(PathBuf::from(VERIF_DIR).join("evidence").join(format!("{property}.json")), serde_json::to_string_pretty(&ev).unwrap());
+                        std::process::exit(1);
+                    }
+                } else {
+                    last[i] = cur;
+                    last_site[i] = site;
+                    ticks[i] = 0;
+                }
+            }
+        }
+    });
+}
+
 /// Run `f(i, acc)` for every i in 0..n on all cores; deterministic result (per-signature minimum).
 pub fn par_range<F>(n: u64, f: F) -> Acc
 where
@@ -143,9 +192,12 @@ where
             let mut acc = Acc::new();
             let lo = c * per;
             let hi = ((c + 1) * per).min(n);
+            let slot = rayon::current_thread_index().unwrap_or(63).min(63);
             for i in lo..hi {
+                CUR_CASE[slot].store(i, AO::Relaxed);
                 f(i, &mut acc);
             }
+            CUR_CASE[slot].store(u64::MAX, AO::Relaxed);
             acc
         })
         .reduce(Acc::new, |mut a, b| {
@@ -399,7 +451,11 @@ pub fn run_sites(sites: &[Site]) -> (Acc, Vec<Value>) {
     let mut total = Acc::new();
     total.sample_cap = 64;
     let mut per_site = vec![];
-    for s in sites {
+    if let Ok(mut names) = SITE_NAMES.lock() {
+        *names = sites.iter().map(|s| s.name.clone()).collect();
+    }
+    for (ord, s) in sites.iter().enumerate() {
+        CUR_SITE.store(ord as u64, AO::Relaxed);
         let t = Instant::now();
         let name = s.name.clone();
         let acc = par_range(s.n, |i, acc| (s.run)(i, acc));
